@@ -124,6 +124,13 @@ def find_attr(root, ctx_path_text, cell):
                 i = ns.find("[")
                 return ns[i + 1:-1] if i >= 0 else None
         return None
+    if cell == "seed":
+        for e in body.iter(X + "itemset"):
+            par = e.getparent()
+            if par.get("ref") == ctx_path_text:
+                m = re.match(r"^randomize\((.*),(.*)\)$", e.get("nodeset") or "")
+                return m.group(2) if m else None
+        return None
     if cell == "query":
         for e in body.iter(X + "input"):
             if e.get("ref") == ctx_path_text and e.get("query"):
